@@ -88,6 +88,15 @@ def _offending(rng, pop):
     for name in plain + mat:
         forms.append(('set "{}" zone 0 2'.format(name), name, 'mismatch'))
         forms.append(('set "{}" zone 1'.format(name), name, 'mismatch'))
+    for name in plain + mz + ['Nobody']:
+        addressed = None if name == 'Nobody' else name
+        cls = 'unknown' if name == 'Nobody' else 'mismatch'
+        hi = rng.choice([7, 8, 10, 31, 63, 100, 254])
+        forms.append(('set "{}" row {}'.format(name, hi), addressed, cls))
+        forms.append(('set "{}" column 3 {}'.format(name, hi), addressed,
+                      cls))
+        forms.append(('set "{}" begin stage row {} {} end'.format(
+            name, max(hi - 1, 0), hi), addressed, cls))
     for name in plain + mz:
         forms.append(('set "{}" row 1'.format(name), name, 'mismatch'))
         forms.append(('set "{}" column 0 2'.format(name), name, 'mismatch'))
@@ -194,11 +203,14 @@ def gen(rng, tier, index, family=None, faulty_kind=None, mode=None):
             req = rng.choice(reqs)
             o = rng.randint(1, 3)
             k = rng.randint(1, 3)
+            occ = list(range(o, o + k))
+            if rng.random() < 0.25:
+                occ = '*'       # this kind of request is never answered
             sc['plan'] = [{'kind': rng.choice(['drop_request',
                                                'drop_response',
                                                'late_response']),
                            'device': f, 'request': req,
-                           'occurrence': list(range(o, o + k))}]
+                           'occurrence': occ}]
     return sc
 
 
@@ -534,6 +546,27 @@ def execute(scenario, chooser):
                 probes['get_failed'] = 1
             if typ == 'MultiZoneSetColorZones' and n_run > n_ref:
                 probes['zone_ack_lost'] = 1
+    # no request is attempted more than three times in a row without an
+    # answer (per device and identical request; a script may of course issue
+    # the same request several times back to back - the fault-free run says
+    # how often)
+    for f in sc['faulty']:
+        worst = _failed_runs(net, f, mark_f if sc['family'] == 'script'
+                             else -1)
+        ref_runs = _ref_runs(ref['net'], f, mark_r
+                             if sc['family'] == 'script' else -1)
+        for key, n in worst.items():
+            if key[0] == 'GetService':
+                continue      # one broadcast per discovery, never retried
+            allowed = 3 * max(ref_runs.get(key, 1), 1)
+            if n > allowed:
+                violation('too-many-attempts',
+                          'device {} ({}): {} unanswered attempts of one and '
+                          'the same {} request; the fault-free run sends '
+                          'that request {} time(s), so at most {} '
+                          'attempts are allowed'.format(
+                              f, sc['population'][f]['label'], n, key[0],
+                              ref_runs.get(key, 1), allowed))
     giving_up = sum(1 for lv, m in run['logs'] if 'Giving up' in m)
     if giving_up:
         probes['retry_exhausted'] = 1
@@ -594,6 +627,31 @@ def _first_diff(a, b):
     return -1, None, None
 
 
+def _failed_runs(net, dev, mark):
+    """Unanswered attempts per identical datagram sent to device `dev`."""
+    failed = {(d, name, occ) for (d, name, occ, _k) in net.dropped}
+    out = {}
+    for (ev, _t, d, name, occ, raw) in net.wire:
+        if d != dev or ev <= mark:
+            continue
+        if (d, name, occ) in failed:
+            key = (name, raw)
+            out[key] = out.get(key, 0) + 1
+    return out
+
+
+def _ref_runs(net, dev, mark):
+    """How often the fault-free run sends each identical datagram to `dev`
+    (= the number of logical requests of that kind)."""
+    out = {}
+    for (ev, _t, d, name, _occ, raw) in net.wire:
+        if d != dev or ev <= mark:
+            continue
+        key = (name, raw)
+        out[key] = out.get(key, 0) + 1
+    return out
+
+
 def _count_payload(net, dev, typ, mark):
     out = {}
     for r in net.bulbs[dev].record:
@@ -603,7 +661,7 @@ def _count_payload(net, dev, typ, mark):
 
 
 def _count_wire(net, dev, typ, mark):
-    return sum(1 for (ev, _t, d, name, _o) in net.wire
+    return sum(1 for (ev, _t, d, name, _o, _raw) in net.wire
                if ev > mark and d == dev and name == typ)
 
 
@@ -637,10 +695,14 @@ def extra_cases(tier):
                             with_inject=False)
             # sites of the (first) discovery conversation
             sites = {}
-            for (_ev, _t, d, name, occ) in obs['sim'].net.wire:
+            for (_ev, _t, d, name, occ, _raw) in obs['sim'].net.wire:
                 if d == f and name.startswith(('Get', 'MultiZoneGet')):
                     sites[name] = max(sites.get(name, 0), occ)
             for name, n in sorted(sites.items()):
+                c = copy.deepcopy(sc0)
+                c['plan'] = [{'kind': 'drop_response', 'device': f,
+                              'request': name, 'occurrence': '*'}]
+                cases.append(c)
                 n_first = max(1, n // 2) if sc['mode'] != 'first' else n
                 for o in range(1, min(n_first, 4) + 1):
                     for ln in (1, 2, 3):
@@ -656,7 +718,7 @@ def extra_cases(tier):
             if 'mark' not in obs:
                 continue
             sites = {}
-            for (ev, _t, d, name, occ) in obs['sim'].net.wire:
+            for (ev, _t, d, name, occ, _raw) in obs['sim'].net.wire:
                 if d == f and ev > obs['mark']:
                     sites[name] = max(sites.get(name, 0), occ)
             for name, n in sorted(sites.items()):
